@@ -721,6 +721,9 @@ func specIntOp(op token.Token, x, y Val, rt types.Type) Val {
 		}
 		return scalar(rt, BVUDiv(a, b))
 	case token.REM:
+		if abstractRem {
+			return scalar(rt, abstractRemTerm(a, b, signed))
+		}
 		if signed {
 			return scalar(rt, BVSRem(a, b))
 		}
